@@ -100,6 +100,12 @@ def ranges(df, F, n):
 
 def build_table(case):
     n = len(case['rise'])
+    if case.get('int_cols'):
+        d = {'volt_rise': np.array(case['rise'], dtype=np.int64), 'volt_decay': np.array(case['decay'], dtype=np.int64),
+             'period': np.array(case['period'], dtype=int)}
+        d['volt_amp'] = np.array(case['amp'], dtype=float) if case['amp'] is not None else (d['volt_rise'] + d['volt_decay']) / 2
+        d['sample_peak' if case['center'] == 'peak' else 'sample_trough'] = np.arange(n) * 10 + 5
+        return pd.DataFrame(d)
     d = {'volt_rise': np.array(case['rise'], dtype=float) * case['scale'],
          'volt_decay': np.array(case['decay'], dtype=float) * case['scale'],
          'period': np.array(case['period'], dtype=int)}
@@ -135,7 +141,7 @@ def check_synth(case, rec):
         ranges(tmp, F, n)
     ties = len(np.unique(df['volt_amp'].values)) < n
     pairing = neighbour_pair_decides(F, n)
-    rec.label('center:' + c, 'dir:' + direction, 'rank-ties' if ties else 'no-rank-ties',
+    rec.label('center:' + c, 'dir:' + direction, 'int-columns' if case.get('int_cols') else 'float-columns', 'rank-ties' if ties else 'no-rank-ties',
               'neighbour-pair-decides' if pairing else 'own-pair-decides', 'undefined-rows' if undef.any() else 'all-defined',
               'negatives' if (F < 0).any() else 'non-negative', 'n<3' if n < 3 else 'n>=3')
     rec.nontrivial(n >= 3 and (ties or pairing or direction != 'both'))
@@ -177,7 +183,8 @@ def strat_synth(draw, tier):
     period = draw(st.lists(st.integers(1, 40), min_size=n, max_size=n))
     amp = draw(st.one_of(st.none(), st.lists(st.integers(0, 5).map(float), min_size=n, max_size=n)))
     return {'rise': rise, 'decay': decay, 'period': period, 'amp': amp, 'scale': draw(st.sampled_from([1.0, 0.5, 0.1, 3.0])),
-            'center': draw(st.sampled_from(['peak', 'trough'])), 'direction': draw(st.sampled_from(['both', 'both', 'next', 'last']))}
+            'center': draw(st.sampled_from(['peak', 'trough'])), 'direction': draw(st.sampled_from(['both', 'both', 'next', 'last'])),
+            'int_cols': draw(st.integers(0, 3)) == 0}
 
 
 @st.composite
